@@ -11,6 +11,10 @@
 //              2 intrusive, initialized_static_buffer<capacity+1>
 //              3 container, initialized_static_buffer<capacity+1>
 //              4 container, default traits (cds::sync::spin with its exponential back-off, backoff::Default)
+//              5 intrusive, checked_buffer of cfg[4] cells (any size, Exp2 = false): capacity() must be
+//                floor2(cfg[4]) - 1 = cfg[0]; every m_Heap[i] is bounds-checked by the buffer itself (an index
+//                outside the buffer is redirected to a spare cell and reported: no real out-of-bounds access).
+//                Observable only (the model assumes buffer size = capacity + 1, heapify_after_pop visits more cells here).
 //   operations:  "1 p id" = push item (priority p, identity id)   events  inv_push p id ; ret_push b p id
 //                "2"      = pop                                   events  inv_pop ; ret_pop 1 p id | ret_pop 0 0 0
 //   The comparator orders items by priority only (equal priorities compare equal).
@@ -19,6 +23,8 @@
 //   monitor size <n>              size() after the run
 //   monitor drain <p> <id> ...    the items still in the queue, popped one after the other
 //   monitor alien <k>             pop() returned k pointers that are not items of this case
+//   monitor oob <k>               (variant 5) k accesses m_Heap[i] with i >= buffer size
+//   monitor capacity <c> expected <e>   (variant 5) capacity() differs from floor2(buffer size) - 1
 // A watchdog ends a case that does not finish within 20 s (a corrupted heap or a lock that is never
 // released): "monitor hang <case id>" is printed and the process exits with status 3.
 #include <cds/intrusive/mspriority_queue.h>
@@ -48,6 +54,29 @@ struct item_less {
 };
 
 typedef cds::sync::spin_lock<cds::backoff::empty> lock_t;
+
+// a buffer of any size whose operator[] checks the index (regression monitor for the non-power-of-two overflow)
+static std::atomic<long> g_oob( 0 );
+template <typename T>
+class checked_buffer {
+    std::vector<T> m_cells;     // m_cells[n] is the spare cell out-of-range accesses are redirected to
+    size_t         m_n;
+public:
+    typedef T value_type;
+    static constexpr const bool c_bExp2 = false;
+    template <typename Q> struct rebind { typedef checked_buffer<Q> other; };
+    explicit checked_buffer( size_t n ) : m_cells( n + 1 ), m_n( n ) {}
+    checked_buffer( checked_buffer const& ) = delete;
+    T& operator[]( size_t i ) { if ( i >= m_n ) { ++g_oob; return m_cells[m_n]; } return m_cells[i]; }
+    T const& operator[]( size_t i ) const { if ( i >= m_n ) { ++g_oob; return m_cells[m_n]; } return m_cells[i]; }
+    size_t capacity() const noexcept { return m_n; }
+};
+struct traits_checked : public ci::mspriority_queue::traits {
+    typedef checked_buffer<char> buffer;
+    typedef item_less less;
+    typedef lock_t lock_type;
+    typedef cds::backoff::empty back_off;
+};
 
 struct traits_dyn : public ci::mspriority_queue::traits {
     typedef cds::opt::v::initialized_dynamic_buffer<char> buffer;
@@ -136,11 +165,15 @@ static void on_alarm( int )
 }
 
 template <class A>
-static void run_one( vcase::Case const& c, size_t cap )
+static void run_one( vcase::Case const& c, size_t cap, size_t bufsize = 0 )
 {
-    std::unique_ptr<A> a( new A( cap + 1 ));
-    if ( a->q.capacity() != cap ) {
-        std::printf( "case %s\nendcase finished\nmonitor badcfg capacity %zu\n", c.id.c_str(), a->q.capacity());
+    bool checked = bufsize != 0;
+    if ( !checked ) bufsize = cap + 1;
+    g_oob.store( 0 );
+    std::unique_ptr<A> a( new A( bufsize ));
+    size_t realcap = a->q.capacity();
+    if ( realcap != cap && !checked ) {
+        std::printf( "case %s\nendcase finished\nmonitor badcfg capacity %zu\n", c.id.c_str(), realcap );
         return;
     }
     std::strncpy( g_case_id, c.id.c_str(), sizeof( g_case_id ) - 1 );
@@ -179,6 +212,10 @@ static void run_one( vcase::Case const& c, size_t cap )
         std::printf( "\n" );
         if ( alien ) std::printf( "monitor alien %d\n", alien );
     }
+    if ( checked ) {
+        if ( g_oob.load()) std::printf( "monitor oob %ld\n", g_oob.load());
+        if ( realcap != cap ) std::printf( "monitor capacity %zu expected %zu\n", realcap, cap );
+    }
     alarm( 0 );
     std::fflush( stdout );
     if ( vs::S().overrun ) {
@@ -200,7 +237,7 @@ int main( int argc, char** argv )
     while ( vcase::read_case( in, c )) {
         size_t cap = c.cfg.size() > 0 ? (size_t) c.cfg[0] : 3;
         long variant = c.cfg.size() > 3 ? c.cfg[3] : 0;
-        bool ok = cap == 1 || cap == 3 || cap == 7 || cap == 15;
+        bool ok = cap == 1 || cap == 3 || cap == 7 || cap == 15 || variant == 5;
         if ( !ok ) { std::printf( "case %s\nendcase finished\nmonitor badcfg capacity\n", c.id.c_str()); continue; }
         switch ( variant ) {
         case 0: run_q< intrusive_adapter, ci::MSPriorityQueue<Item, traits_dyn> >( c, cap ); break;
@@ -218,6 +255,7 @@ int main( int argc, char** argv )
             else run_q< container_adapter, cc::MSPriorityQueue<Item, ctraits_static<16>> >( c, cap );
             break;
         case 4: run_q< container_adapter, cc::MSPriorityQueue<Item, ctraits_default> >( c, cap ); break;
+        case 5: run_one< intrusive_adapter< ci::MSPriorityQueue<Item, traits_checked> > >( c, cap, c.cfg.size() > 4 ? (size_t) c.cfg[4] : cap + 1 ); break;
         default: std::printf( "case %s\nendcase finished\nmonitor badcfg variant\n", c.id.c_str());
         }
     }
